@@ -15,7 +15,7 @@ Leaves bound here (none of them is decided inside graph_with_sympy_numbers):
 
 GROUP = {'name': 'GraphNum',
  'imports': ['Cellml.Tie.GraphView'],
- 'header': 'open C09',
+ 'header': 'open Cellml.Tie.PGraph\nopen C09',
  'functions': [{'file': 'cellmlmanip/model.py',
                 'func': 'Model.graph_with_sympy_numbers',
                 'lean_name': 'graphWithSympyNumbers',
